@@ -8,8 +8,35 @@ SIM_REAL = ["model3d, model2d, numerical, render3d, toolbox3d (all library code,
 SIM_SHIM = ["github.com/unixpickle/essentials concurrency.go (same goroutine structure + scheduling points; other files verbatim)"]
 
 PROPS = {
+    "C13": {
+        "race": True,
+        "replay_isolated": True,
+        "hang_is_trouble": True,
+        "level": "exploration",
+        "budget_s": {"quick": 90, "thorough": 1500},
+        "max_cases": {"quick": 0, "thorough": 0},
+        "min_fields": ["sched", "work"],
+        "zero_fields": ["sched", "work"],
+        "rule": ("one case = (workload, worker count, schedule) from two choice tapes, run in a -race build under the deterministic "
+                 "scheduler (which the race detector cannot see). Part A: 2..8 reader tasks issue generated read-only queries (26 kinds: "
+                 "Find/Neighbors/VertexSlice/Iterate/AllVertexNeighbors/MapCoords/SingularVertices/..., ray/sphere collisions, SDFs, "
+                 "ColliderSolid, CoordTree, Cached colour func, CacheScalarFunc) on one shared 3-D or 2-D mesh (index absent or prebuilt) "
+                 "and on colliders/fields/solids derived from it; each answer must equal the same query made sequentially afterwards. "
+                 "Part B: KMeans.Iterate/Assign (dyadic data: exact equality with the 1-worker run), HeightMap.AddSpheresSDF (conservation "
+                 "against the recorded spheres), OBJ builders, QuantizedTriangleColor, RayCaster/RecursiveRayTracer.Render (shared renderer), "
+                 "and the C12 meshing/rasterising workloads. Oracles: no race report with a model3d frame, value oracle, no deadlock/livelock. "
+                 "distinct_nontrivial = distinct cases with >=1 preemption; distinct_interleavings = distinct decision traces."),
+        "assumptions": [
+            "the race detector decides by happens-before over the synchronisation the library itself performs; the simulator adds no edges (asm spin lock, norace bookkeeping, fake-time quiescence)",
+            "interleavings are explored at yield-point granularity; finer-grained conflicts are found by the race detector, not by interleaving",
+            "no concurrent mutation API is documented, so histories contain only reads (nothing for a linearizability search to decide)",
+        ],
+        "components": {"real": SIM_REAL, "shim": SIM_SHIM,
+                       "stub": ["reader tasks, recording PointSDF, colour callbacks, simsolid solids (all harness code)"]},
+    },
     "C12": {
         "race": False,
+        "hang_is_trouble": True,
         "level": "exploration",
         "budget_s": {"quick": 60, "thorough": 1500},
         "max_cases": {"quick": 0, "thorough": 0},
